@@ -1122,6 +1122,10 @@ func (e *Exec) recv(fr *frame, st *State, x *ssa.UnOp) bool {
 	if x.CommaOk {
 		et = x.Type().(*types.Tuple).At(0).Type()
 	}
+	// the value may refer to objects another goroutine allocated: the allocation counter moves first
+	na := e.smt.fresh("alloc", SInt)
+	e.assume(st, tLe(st.alloc, na))
+	st.alloc = na
 	v := e.smt.fresh("recv", e.ti.sortOf(et))
 	e.assume(st, e.wellTypedDeep(st, et, v))
 	if e.nonblocking() {
@@ -1151,6 +1155,9 @@ func (e *Exec) selectInstr(fr *frame, st *State, x *ssa.Select) bool {
 	e.assume(st, tAnd(tLe(tInt(lo), idx), tLt(idx, tInt(int64(len(x.States))))))
 	selok := e.smt.fresh("selok", SBool)
 	vals := []Value{idx, selok}
+	na := e.smt.fresh("alloc", SInt)
+	e.assume(st, tLe(st.alloc, na))
+	st.alloc = na
 	for i, sc := range x.States {
 		if sc.Dir == types.RecvOnly {
 			et := sc.Chan.Type().Underlying().(*types.Chan).Elem()
